@@ -87,7 +87,7 @@ func C07(c *Case) *Result {
 		case 1:
 			if nblocks > 0 {
 				failBlock = 1 + t.Intn(nblocks)
-				failPoint = []string{"enc.compute", "enc.acquired", "enc.emitted", "enc.wait"}[t.Intn(4)]
+				failPoint = []string{"enc.compute", "enc.acquired", "enc.emitted", "enc.wait", "enc.entropy", "enc.entropy.done"}[t.Intn(6)]
 			}
 		case 2:
 			ioK = t.Intn(2 + len(data)/max(cfg.WBuf, 1024))
@@ -99,7 +99,7 @@ func C07(c *Case) *Result {
 		failBlock2, failPoint2 := -1, ""
 		if fam == 1 && nblocks > 1 && t.Intn(4) == 0 {
 			failBlock2 = 1 + t.Intn(nblocks)
-			failPoint2 = []string{"enc.compute", "enc.acquired", "enc.emitted", "enc.wait"}[t.Intn(4)]
+			failPoint2 = []string{"enc.compute", "enc.acquired", "enc.emitted", "enc.wait", "enc.entropy", "enc.entropy.done"}[t.Intn(6)]
 			res.Probes["two.task.failures"]++
 		}
 		hooks.OnPoint = func(s *sim.Sched, ti *sim.TaskInfo, name string, arg int) error {
@@ -188,7 +188,7 @@ func C07(c *Case) *Result {
 			case 0:
 				if nblocks > 0 {
 					failBlock = 1 + t.Intn(nblocks)
-					failPoint = []string{"dec.acquired", "dec.published", "dec.publish"}[t.Intn(3)]
+					failPoint = []string{"dec.acquired", "dec.published", "dec.publish", "dec.entropy", "dec.entropy.done"}[t.Intn(5)]
 				}
 			case 1:
 				// damage inside a block body: the task fails after publishing
